@@ -250,16 +250,16 @@ class HttpWebServerPlugin(HttpProtocolHandlerPlugin):
             'client_port': None if not self.client.addr else self.client.addr[1],
             'connection_time_ms': '%.2f' % ((time.time() - self.start_time) * 1000),
             # Request
-            'request_method': text_(self.request.method),
-            'request_path': text_(self.request.path),
+            'request_method': text_(self.request.method, errors='backslashreplace'),
+            'request_path': text_(self.request.path, errors='backslashreplace'),
             'request_bytes': self.request.total_size + self._post_request_data_size,
             'request_ua': (
-                text_(self.request.header(b'user-agent'))
+                text_(self.request.header(b'user-agent'), errors='backslashreplace')
                 if self.request.has_header(b'user-agent')
                 else None
             ),
             'request_version': (
-                None if not self.request.version else text_(self.request.version)
+                None if not self.request.version else text_(self.request.version, errors='backslashreplace')
             ),
             # Response
             #
